@@ -5,8 +5,44 @@ import common
 SPEC = r'''
 verus! {
 global size_of usize == 8;
-// GF(256) product: defined by the polynomial in K-GF (Kani proves Octet::mul, OCTET_MUL and the nibble tables equal to it)
-pub uninterp spec fn gf_mul(a: u8, b: u8) -> u8;
+// GF(256) product modulo x^8+x^4+x^3+x^2+1 as 8 shift-and-xor steps: the same algorithm as the executable oracle /verif/spec/gf.rs,
+// against which K-GF (Kani) proves Octet::mul, OCTET_MUL and the nibble tables for all operand pairs
+pub open spec fn xtime(a: u8) -> u8 { if a & 0x80 != 0 { ((a << 1) ^ 0x1D) as u8 } else { (a << 1) as u8 } }
+pub open spec fn sel(b: u8, k: u8, a: u8) -> u8 { if (b >> k) & 1 == 1 { a } else { 0u8 } }
+pub open spec fn gf_mul(a: u8, b: u8) -> u8 {
+    let a0 = a; let a1 = xtime(a0); let a2 = xtime(a1); let a3 = xtime(a2); let a4 = xtime(a3); let a5 = xtime(a4); let a6 = xtime(a5); let a7 = xtime(a6);
+    sel(b, 0, a0) ^ sel(b, 1, a1) ^ sel(b, 2, a2) ^ sel(b, 3, a3) ^ sel(b, 4, a4) ^ sel(b, 5, a5) ^ sel(b, 6, a6) ^ sel(b, 7, a7)
+}
+proof fn lemma_sel_xor(b: u8, c: u8, k: u8, a: u8)
+    requires k < 8,
+    ensures sel(b ^ c, k, a) == sel(b, k, a) ^ sel(c, k, a),
+{
+    assert(((b ^ c) >> k) & 1 == ((b >> k) & 1) ^ ((c >> k) & 1)) by (bit_vector) requires k < 8;
+    assert(((b >> k) & 1) == 0 || ((b >> k) & 1) == 1) by (bit_vector);
+    assert(((c >> k) & 1) == 0 || ((c >> k) & 1) == 1) by (bit_vector);
+    assert(a ^ a == 0) by (bit_vector);
+    assert(a ^ 0 == a) by (bit_vector);
+    assert(0u8 ^ a == a) by (bit_vector);
+    assert(0u8 ^ 0u8 == 0u8) by (bit_vector);
+    assert(1u8 ^ 1u8 == 0u8 && 1u8 ^ 0u8 == 1u8 && 0u8 ^ 1u8 == 1u8) by (bit_vector);
+}
+proof fn lemma_xor8(x0: u8, x1: u8, x2: u8, x3: u8, x4: u8, x5: u8, x6: u8, x7: u8, y0: u8, y1: u8, y2: u8, y3: u8, y4: u8, y5: u8, y6: u8, y7: u8)
+    ensures (x0 ^ y0) ^ (x1 ^ y1) ^ (x2 ^ y2) ^ (x3 ^ y3) ^ (x4 ^ y4) ^ (x5 ^ y5) ^ (x6 ^ y6) ^ (x7 ^ y7)
+         == (x0 ^ x1 ^ x2 ^ x3 ^ x4 ^ x5 ^ x6 ^ x7) ^ (y0 ^ y1 ^ y2 ^ y3 ^ y4 ^ y5 ^ y6 ^ y7),
+{
+    assert((x0 ^ y0) ^ (x1 ^ y1) ^ (x2 ^ y2) ^ (x3 ^ y3) ^ (x4 ^ y4) ^ (x5 ^ y5) ^ (x6 ^ y6) ^ (x7 ^ y7)
+         == (x0 ^ x1 ^ x2 ^ x3 ^ x4 ^ x5 ^ x6 ^ x7) ^ (y0 ^ y1 ^ y2 ^ y3 ^ y4 ^ y5 ^ y6 ^ y7)) by (bit_vector);
+}
+// the field product distributes over addition (xor)
+pub proof fn lemma_gf_distributive(a: u8, b: u8, c: u8)
+    ensures gf_mul(a, b ^ c) == gf_mul(a, b) ^ gf_mul(a, c),
+{
+    let a0 = a; let a1 = xtime(a0); let a2 = xtime(a1); let a3 = xtime(a2); let a4 = xtime(a3); let a5 = xtime(a4); let a6 = xtime(a5); let a7 = xtime(a6);
+    lemma_sel_xor(b, c, 0, a0); lemma_sel_xor(b, c, 1, a1); lemma_sel_xor(b, c, 2, a2); lemma_sel_xor(b, c, 3, a3);
+    lemma_sel_xor(b, c, 4, a4); lemma_sel_xor(b, c, 5, a5); lemma_sel_xor(b, c, 6, a6); lemma_sel_xor(b, c, 7, a7);
+    lemma_xor8(sel(b, 0, a0), sel(b, 1, a1), sel(b, 2, a2), sel(b, 3, a3), sel(b, 4, a4), sel(b, 5, a5), sel(b, 6, a6), sel(b, 7, a7),
+               sel(c, 0, a0), sel(c, 1, a1), sel(c, 2, a2), sel(c, 3, a3), sel(c, 4, a4), sel(c, 5, a5), sel(c, 6, a6), sel(c, 7, a7));
+}
 pub open spec fn xor_seq(a: Seq<u8>, b: Seq<u8>) -> Seq<u8> { Seq::new(a.len(), |i: int| a[i] ^ b[i]) }
 pub open spec fn mul_seq(a: Seq<u8>, c: u8) -> Seq<u8> { Seq::new(a.len(), |i: int| gf_mul(c, a[i])) }
 
@@ -114,6 +150,51 @@ pub proof fn lemma_column_independence(v: Seq<Seq<u8>>, op: SymbolOps, ss: int, 
             SymbolOps::AddAssign { dest, src } => { assert(l[i] =~= r[i]); }
             SymbolOps::MulAssign { dest, scalar } => { assert(l[i] =~= r[i]); }
             SymbolOps::FMA { dest, src, scalar } => { assert(l[i] =~= r[i]); }
+            SymbolOps::Reorder { order } => { assert(l[i] =~= r[i]); }
+        }
+    }
+    assert(l =~= r);
+}
+// C09: the packets for A xor B are the xor of the packets for A and for B: every op is additive over symbol-wise xor
+pub open spec fn xor_view(a: Seq<Seq<u8>>, b: Seq<Seq<u8>>) -> Seq<Seq<u8>> { Seq::new(a.len(), |i: int| xor_seq(a[i], b[i])) }
+pub proof fn lemma_xor_assoc4(a: u8, b: u8, c: u8, d: u8)
+    ensures (a ^ b) ^ (c ^ d) == (a ^ c) ^ (b ^ d),
+{ assert((a ^ b) ^ (c ^ d) == (a ^ c) ^ (b ^ d)) by (bit_vector); }
+pub proof fn lemma_op_additive(v1: Seq<Seq<u8>>, v2: Seq<Seq<u8>>, op: SymbolOps, ss: int)
+    requires uniform(v1, ss), uniform(v2, ss), v1.len() == v2.len(), op_in_range(v1, op),
+    ensures apply_op(xor_view(v1, v2), op) == xor_view(apply_op(v1, op), apply_op(v2, op)),
+            uniform(apply_op(v1, op), ss), uniform(apply_op(v2, op), ss), apply_op(v1, op).len() == apply_op(v2, op).len(),
+{
+    let l = apply_op(xor_view(v1, v2), op);
+    let r = xor_view(apply_op(v1, op), apply_op(v2, op));
+    assert(l.len() == r.len());
+    assert forall |i: int| 0 <= i < l.len() implies l[i] == r[i] by {
+        match op {
+            SymbolOps::AddAssign { dest, src } => {
+                if i == dest as int {
+                    assert forall |j: int| 0 <= j < ss implies l[i][j] == r[i][j] by {
+                        lemma_xor_assoc4(v1[dest as int][j], v2[dest as int][j], v1[src as int][j], v2[src as int][j]);
+                    }
+                }
+                assert(l[i] =~= r[i]);
+            }
+            SymbolOps::MulAssign { dest, scalar } => {
+                if i == dest as int {
+                    assert forall |j: int| 0 <= j < ss implies l[i][j] == r[i][j] by {
+                        lemma_gf_distributive(scalar.value, v1[dest as int][j], v2[dest as int][j]);
+                    }
+                }
+                assert(l[i] =~= r[i]);
+            }
+            SymbolOps::FMA { dest, src, scalar } => {
+                if i == dest as int {
+                    assert forall |j: int| 0 <= j < ss implies l[i][j] == r[i][j] by {
+                        lemma_gf_distributive(scalar.value, v1[src as int][j], v2[src as int][j]);
+                        lemma_xor_assoc4(v1[dest as int][j], v2[dest as int][j], gf_mul(scalar.value, v1[src as int][j]), gf_mul(scalar.value, v2[src as int][j]));
+                    }
+                }
+                assert(l[i] =~= r[i]);
+            }
             SymbolOps::Reorder { order } => { assert(l[i] =~= r[i]); }
         }
     }
